@@ -41,6 +41,8 @@ def main(argv=None):
         return rc
 
     try:
+        if hasattr(mod, 'pre_build'):
+            mod.pre_build(ctx)          # e.g. regenerate translator output from /repo's working tree
         ctx.note('proof obligations')
         ctx.coq_obligations(getattr(mod, 'EXTRA_TARGETS', ()))
         ctx.note('correspondence + monitors')
